@@ -1,7 +1,7 @@
 CONSTANTS
-  Loops = {1, 2, 3}
+  Loops = {1, 2, 3, 4, 5, 6, 7, 8}
   Sigs = {1, 2, 3}
-  Events = {1, 2, 3, 4, 5, 6}
+  Events = {1, 2, 3, 4, 5, 6, 7, 8, 9, 10}
   Configs = {}
   Kinds = {"info", "plain", "ign", "dfl"}
   MaxRaises = 0
